@@ -124,4 +124,24 @@ CHECKS = {
         "note": "Exploration: a seeded stratified sample of the enumerated universe per run plus the repository's own files through the "
                 "emitter; several genuine accepted-but-unbuildable classes are catalogued.",
     },
+    "C08": {
+        "level": "translation_validation",
+        "technique": "TLA+ contract Format.RunOK + TLC-generated Core programs, construct corpus and repository corpus; real parser and "
+                     "format_source in process, ASTs compared modulo documented equivalences; runs validated by TLC (FormatTrace)",
+        "text": "Format.tla states the contract; every input (TLC-generated programs from the Core specification, one construct file "
+                "per AST node kind / optional field, the repository's own files) is parsed, formatted, re-parsed and the projected ASTs "
+                "compared (the projection is an exhaustive match over the real AST, so no field is silently ignored). Each failure is "
+                "identified by the first differing AST field and the feature tags of the original tree.",
+        "note": "The construct corpus is hand-written rather than generated by TLC (coverage of node kinds is measured); eleven genuine "
+                "printer defects are catalogued by (symptom, tags).",
+    },
+    "C09": {
+        "level": "exploration",
+        "technique": "TLA+ contract Format.RunStable/Canonical + `incan fmt` mode machine (TLC); real formatter applied twice to the C08 "
+                     "space + layout-edited variants; line traces and real CLI sessions validated by TLC (FormatTrace)",
+        "text": "Idempotence and canonical form are evaluated by TLC on the recorded line trace of every real formatter run; the CLI modes "
+                "(fmt / --check / --diff) are a small TLC-checked state machine against which recorded real sessions (exit status, file "
+                "bytes and mtime before/after) are validated.",
+        "note": "Exploration over a finite corpus + seeded variants; --diff's exit status is left open (undocumented).",
+    },
 }
